@@ -130,7 +130,11 @@ def run(rep: Report, ctx: Any) -> str:
                       "is hashed (looked up in / stored into a dict or set) has no unhashable type (list / dict / set / untyped Any) "
                       "among its abstract types unless a try around the operation catches TypeError; a document value handed to a "
                       "parameter declared as a (non-optional) container cannot be None: an absent optional section has been replaced by an "
-                      "empty container or tested on every way to the call")
+                      "empty container or tested on every way to the call; an optional field or result (None among its abstract types) derived "
+                      "from the document is not handed to an operation that rejects None - attribute access / method call on it, "
+                      "arithmetic, concatenation, ordering, container operations, the text and number functions of the standard library "
+                      "(textwrap, re, len, int, ...) - unless a fallback, a test or a store of a non-None value rules None out on every "
+                      "way there or a try catches TypeError and AttributeError")
     rep.rule("R06.3", "every call through a dynamically imported property template is guarded by `{% if alias.macro %}` or every "
                       "template the alias can denote defines the macro")
     rep.rule("R06.4", "every while loop and every recursive cycle of the call graph has one of five ranking arguments, decided on the "
@@ -2770,7 +2774,7 @@ def _none_operations(rep: Report, ctx: Any, funcs: list[FuncInfo], validators: l
                       f"{what} is applied to `{norm(operand)[:60]}`, an optional value taken from the document (or from a diagnostic / property "
                       f"built from it) that may be None there: {exc} instead of a diagnostic", where(f, node), lhs=norm(operand)[:60],
                       rhs="a fallback (`x or \"\"`), or a test that rules None out on every way to the operation")
-    rep.indexed["none_rejecting_operations_on_optional_document_values"] = n_ops
+    rep.floor("none_rejecting_operations_on_optional_document_values", n_ops, 8)
 
 
 # ---------------------------------------------------------------------------------------------------------------------------------
